@@ -8,7 +8,7 @@ Encoder, implementation side (`encImpl`): a transcription of
     `CellValueBuilder::{new,append_bytes,make_sub_writer,make_sub_writer_without_size,finish}` (164-218):
     the builder pushes the `-3` placeholder, children append to the same buffer, `finish` back-patches the
     length; with `write_size = false` (vector elements) neither placeholder nor length is written and
-    `set_null` / `set_unset` still write their 4 bytes (finding F2);
+    `set_null` / `set_unset` still write their 4 bytes (finding C01-F2);
   * `scylla-cql-core/src/serialize/value.rs` — `serialize_cql_value` (623-706) and the `SerializeValue`
     impls it delegates to (93-402), `serialize_udt` (750-818), `serialize_tuple_like` (820-845),
     `serialize_sequence` (932-981), `serialize_vector` + the constant / variable length element writers
@@ -145,15 +145,15 @@ def foldEnc {α : Type} (f : α → Bytes → Except SerErr Bytes) : List α →
     | .ok b => foldEnc f vs b
 
 /-- One map entry: key cell then value cell into the same buffer (`serialize_mapping` loop body). -/
-def pairImpl (fk fv : CqlVal → Bytes → Except SerErr Bytes) (kv : CqlVal × CqlVal) (b : Bytes) :
-    Except SerErr Bytes :=
+def pairImpl {α β : Type} (fk : α → Bytes → Except SerErr Bytes) (fv : β → Bytes → Except SerErr Bytes)
+    (kv : α × β) (b : Bytes) : Except SerErr Bytes :=
   match fk kv.1 b with
   | .error e => .error e
   | .ok b1 => fv kv.2 b1
 
 /-- `serialize_next_variable_length_elem`: the element goes to a fresh buffer (without size), then
 `unsigned vint length ++ bytes` is appended. -/
-def varElemImpl (f : CqlVal → Bytes → Except SerErr Bytes) (v : CqlVal) (b : Bytes) : Except SerErr Bytes :=
+def varElemImpl {α : Type} (f : α → Bytes → Except SerErr Bytes) (v : α) (b : Bytes) : Except SerErr Bytes :=
   match f v [] with
   | .error e => .error e
   | .ok eb => .ok (b ++ uvintEnc (BitVec.ofNat 64 eb.length) ++ eb)
@@ -509,9 +509,10 @@ def decMap (fk fv : Bytes → Except DeErr CqlVal) : Nat → Bytes → Except De
                 | .error e => .error e
                 | .ok r => .ok ((k, v) :: r)
 
-/-- `FrameSlice::read_n_bytes`: `Ok(None)` on an empty slice (even for `count = 0`). -/
+/-- `FrameSlice::read_n_bytes`: `Ok(None)` on an empty slice unless `count = 0` (reading zero bytes always
+yields an empty subslice — /repo commit 808d80c, finding C01-F8). -/
 def readN (count : Nat) (bs : Bytes) : Except DeErr (Option Bytes × Bytes) :=
-  if bs.isEmpty then .ok (none, bs)
+  if bs.isEmpty && count != 0 then .ok (none, bs)
   else if bs.length < count then .error .rawCqlBytesReadError
   else .ok (some (bs.take count), bs.drop count)
 
@@ -731,9 +732,9 @@ def wfNative (u : Bytes → Bool) : NativeTy → CqlVal → Bool
 
 mutual
 /-- Decidable well-formedness of a non-null value at a type: the domain of `roundtrip`.  Besides "has the
-shape of the type" it excludes the four shapes on which the current code does not round-trip
-(F1: zero-field tuple value; F2: null / unset vector element — nulls are only allowed by `wfCell`;
-F8: zero-length last element of a variable-width vector; F9: `empty` element of a fixed-width vector)
+shape of the type" it excludes the three shapes on which the current code does not round-trip
+(C01-F1: zero-field tuple value; C01-F2: null / unset vector element — nulls are only allowed by `wfCell`;
+C01-F9: `empty` element of a fixed-width vector)
 and degenerate types (zero-field tuple / UDT, zero-dimension vector). -/
 def wfVal (u : Bytes → Bool) : CqlTy → CqlVal → Bool
   | t, v =>
@@ -754,9 +755,7 @@ def wfVal (u : Bytes → Bool) : CqlTy → CqlVal → Bool
           vs.length == dim && decide (0 < dim) && vs.all (fun x => wfVal u elt x) &&
             (match elt.sizeForVector with
              | some _ => vs.all (fun x => !isEmptyVal x)
-             | none => match vs.getLast? with
-               | some l => !zeroLenBody l
-               | none => true)
+             | none => true)
         | _ => false
       | .tuple ts => match v with
         | .tuple fs => !fs.isEmpty && decide (fs.length ≤ ts.length) && wfTuple u ts fs
